@@ -405,7 +405,13 @@ func closedGuards(c *Ctx) {
 		ok := len(cl) == 1 && !P.PathExists(q.fn, nil, an.IsReturn, an.In(cl), nil)
 		q.add("PATH", "closing closes the Done channel", ok, pickS(ok, "close("+x[1]+") (deferred) on every path of the close body", "the close body can finish without closing "+x[1]+": Done would never be closed"), cl...)
 	}
-	// Buffer.ensure: every lazily initialised field is re-checked under the lock
+	ensureRecheck(c, true)
+}
+
+// ensureRecheck - Buffer.ensure: every lazily initialised field is re-checked under the lock. (A cond that is
+// replaced by a second racing first use strands the waiters parked on the old one: C05.)
+func ensureRecheck(c *Ctx, count bool) {
+	P := c.P
 	if q := c.F("(*Buffer).ensure"); q.ok() {
 		n := 0
 		for _, cl := range allNested(q.fn) {
@@ -439,7 +445,9 @@ func closedGuards(c *Ctx) {
 				}
 			}
 		}
-		q.add("PATH", "lazy initialisers found", n >= 6, "six lazily initialised fields")
+		if count {
+			q.add("PATH", "lazy initialisers found", n >= 6, "six lazily initialised fields")
+		}
 	}
 }
 
